@@ -465,13 +465,22 @@ pub fn f_delete(seed: u64, burst: bool) -> Plan {
         scripts.push(vec![Step::after(rng.below(2_000), Op::PullBg { slot: my, sub: victim.clone(), max: 10 })]);
     }
     plan.phases.push(Phase { scripts, advance_us: rng.below(2_000_000), audit: false });
+    // sometimes the topic goes first: the subscription is then an orphan when it is deleted
+    if !burst && rng.chance(250) {
+        plan.phases.push(Phase { scripts: vec![vec![Step::new(Op::DeleteTopic { topic: topic.clone() })]], advance_us: rng.below(500_000), audit: false });
+    }
     // the delete, racing with other requests
     let mut scripts: Vec<Vec<Step>> = Vec::new();
     let n_racers = if burst { rng.range(10, 40) } else { rng.range(0, 6) };
     let delete_pos = rng.below(n_racers + 1);
     for i in 0..=n_racers {
         if i == delete_pos {
-            scripts.push(vec![Step::after(rng.below(3) * rng.below(500), Op::DeleteSub { sub: victim.clone() })]);
+            let mut st = Step::after(rng.below(3) * rng.below(500), Op::DeleteSub { sub: victim.clone() });
+            // the client that asked for the deletion may itself go away while it is being processed
+            if !burst && rng.chance(250) {
+                st.abandon_at = rng.range(1, 4) as u32;
+            }
+            scripts.push(vec![st]);
             continue;
         }
         let target = if n_subs > 1 && rng.chance(200) { sub_name("proj-d", 0, 1) } else { victim.clone() };
@@ -604,7 +613,7 @@ pub fn f_listing(seed: u64, big: bool) -> Plan {
     let mut rng = Rng::new(seed);
     let mut plan = Plan { seed, family: "listing".into(), final_drain: false, health_probe: false, ..Default::default() };
     plan.knobs = knobs(&mut rng, false, 0);
-    let projects: Vec<String> = (0..rng.range(1, 3)).map(|i| format!("proj-list-{i}")).collect();
+    let projects: Vec<String> = (0..if big { 1 } else { rng.range(1, 3) }).map(|i| format!("proj-list-{i}")).collect();
     let n_topics = if big { rng.range(990, 1030) } else { *rng.pick(&[0u64, 1, 2, 3, 5, 19, 20, 21, 22, 40, 41]) } as usize;
     let n_subs = if big { rng.range(0, 30) } else { *rng.pick(&[0u64, 1, 2, 5, 19, 20, 21, 30]) } as usize;
     let mut topics: Vec<String> = Vec::new();
@@ -674,7 +683,7 @@ pub fn f_listing(seed: u64, big: bool) -> Plan {
     let n_walks = if big { 3 } else { rng.range(3, 8) };
     for _ in 0..n_walks {
         let size = *rng.pick(&sizes);
-        let size = if big && size >= 0 && size < 100 { 1000 } else { size };
+        let size = if big { *rng.pick(&[1000i32, 1001, 1001, 5000, i32::MAX, n_topics as i32 + 1]) } else { size };
         match rng.below(3) {
             0 => walker.push(Step::new(Op::Walk { kind: ListKind::Topics, parent: format!("projects/{}", rng.pick(&projects)), page_size: size })),
             1 => walker.push(Step::new(Op::Walk { kind: ListKind::Subs, parent: format!("projects/{}", rng.pick(&projects)), page_size: size })),
